@@ -26,8 +26,8 @@ type Program struct {
 	Dir     string
 	AllPkgs map[string]*packages.Package
 	// implementations of interface methods among repo types: method name -> funcs
-	files map[string]*ast.File
-	src   map[string][]byte
+	files  map[string]*ast.File
+	src    map[string][]byte
 	writes map[*ssa.Function]map[string]bool
 }
 
